@@ -187,6 +187,22 @@ fn main() {
                 drivers.push(VecDriver { flavour: f, start: st, programs: instantiate(&[progs[i].clone(), progs[j].clone()]) });
             }
         }
+        // all unordered triples of 1-operation programs (e.g. creator | creator | remover of another key)
+        if thorough || fi == 0 {
+            let one: Vec<VOp> = vec![VOp::W(0, 1.0), VOp::W(1, 1.0), VOp::Remove(0), VOp::Remove(1), VOp::Reset, VOp::Collect];
+            for i in 0..one.len() {
+                for j in i..one.len() {
+                    for k in j..one.len() {
+                        for st in starts {
+                            if !thorough && st == Start::Empty && ![i, j, k].iter().any(|x| *x <= 1) {
+                                continue;
+                            }
+                            drivers.push(VecDriver { flavour: f, start: st, programs: instantiate(&[vec![one[i].clone()], vec![one[j].clone()], vec![one[k].clone()]]) });
+                        }
+                    }
+                }
+            }
+        }
         // three-thread drivers
         for st in starts {
             let w = |k| vec![VOp::W(k, 1.0)];
@@ -203,11 +219,12 @@ fn main() {
         }
     }
     let nd = drivers.len();
-    rep.rule = format!("(E1) stateless exploration (vsched, Mode U with sleep sets, fallback preemption bound) of all interleavings at lock/atomic operations and call boundaries of: for 3 vector flavours (IntCounterVec list form, CounterVec map form, HistogramVec), all unordered pairs of programs of <=2 operations over {:?} (quick: pairs of total length <=3; reduced alphabet for the 2nd and 3rd flavour; 3-thread HistogramVec drivers preemption-bounded) and five 3-thread drivers (creator|creator|collector, creator|remover|collector, creator|reset|creator, creator|remover|creator, creator(a)|creator(b)|collector), from 3 start states (empty / holding key a with a kept handle / a created-and-removed with a kept handle); oracle: Wing-Gong linearizability against a map key->child where collected child values are decoded (distinct powers of two) and judged per child with interval semantics, so they show which child object every handle pointed to. (E2) all sequential histories up to depth {} over {{W(a),W(b),get(a),remove(a),remove(b),reset,update through the last handle, update through the kept handle}} for each flavour and start state, collect compared with the reference after every step. distinct = distinct (results, real-time relation) outcomes + unique sequential states", alpha, if thorough { 6 } else { 5 });
+    rep.rule = format!("(E1) stateless exploration (vsched, Mode U with sleep sets, fallback preemption bound) of all interleavings at lock/atomic operations and call boundaries of: for 3 vector flavours (IntCounterVec list form, CounterVec map form, HistogramVec), all unordered pairs of programs of <=2 operations over {:?} (quick: pairs of total length <=3; reduced alphabet for the 2nd and 3rd flavour; 3-thread HistogramVec drivers preemption-bounded) all unordered triples of 1-operation programs over {{W(a),W(b),remove(a),remove(b),reset,collect}} (quick: IntCounterVec only) and five 3-thread drivers with 2-call programs (creator|creator|collector, creator|remover|collector, creator|reset|creator, creator|remover|creator, creator(a)|creator(b)|collector), from 3 start states (empty / holding key a with a kept handle / a created-and-removed with a kept handle); oracle: Wing-Gong linearizability against a map key->child where collected child values are decoded (distinct powers of two) and judged per child with interval semantics, so they show which child object every handle pointed to. (E2) all sequential histories up to depth {} over {{W(a),W(b),get(a),remove(a),remove(b),reset,update through the last handle, update through the kept handle}} for each flavour and start state, collect compared with the reference after every step. distinct = distinct (results, real-time relation) outcomes + unique sequential states", alpha, if thorough { 6 } else { 5 });
     rep.bounds = json!({"threads": "2-3", "ops_per_thread": 2, "keys": KEYS, "e1_drivers": nd, "seq_depth": if thorough {6} else {5}});
     let cap = if thorough { 3_000_000 } else { 300_000 };
-    // the 3-thread HistogramVec drivers are long (a histogram collect is ~15 steps): preemption-bounded in the quick tier
-    let (heavy, light): (Vec<VecDriver>, Vec<VecDriver>) = drivers.into_iter().partition(|d| !thorough && d.flavour == VFlavour::HistogramList && d.programs.len() == 3);
+    // quick tier: the 3-thread HistogramVec drivers (a histogram collect is ~15 steps) and the 1-operation triples are
+    // explored with a bound of 2 preemptions instead of unboundedly
+    let (heavy, light): (Vec<VecDriver>, Vec<VecDriver>) = drivers.into_iter().partition(|d| !thorough && d.programs.len() == 3 && (d.flavour == VFlavour::HistogramList || d.programs.iter().all(|p| p.len() == 1)));
     let cl = |d: &VecDriver| VecDriver { flavour: d.flavour, start: d.start, programs: d.programs.clone() };
     let mut results = explore_many(light, Mode::U, cap, 3, 16, cl);
     results.extend(explore_many(heavy, Mode::B(2), cap, 2, 16, cl));
